@@ -14,7 +14,10 @@ SPEC = {'level': 'exploration',
                 rule='block trees with signalling counts / median times / activation heights at +-1 around every limit; every block queried on a warm '
                      'shared cache and on fresh caches in random order; non-trivial = ordinary deployment whose queried answers cover >= 3 states'),
             gen('vh_c53', 'up_versionbits', 300000, 5000000,
-                rule="upstream fuzz target 'versionbits' (period 32, regular 10-minute chain, own asserts); supplementary")]}
+                rule="upstream fuzz target 'versionbits' (period 32, regular 10-minute chain, own asserts); supplementary"),
+        # coverage-guided libFuzzer campaign on the same target (thorough tier only; fz tree = g++ trace-pc + covshim)
+        fuzz('vh_c53', 'c53_versionbits', 300, max_len=640),
+    ]}
 
 META = {'level_text': 'Generated block trees (about 1.2M per quick run) with arbitrary versions and consensus-valid timestamps; for every block of every tree the '
                'state returned by VersionBitsConditionChecker::GetStateFor (warm cache shared across forks, fresh caches, random and sweeping query '
